@@ -126,6 +126,52 @@ fn std_as_secs_f32_facts() {
     assert!(Duration::ZERO.as_secs_f32() == 0.0);
 }
 
+// `std_as_secs_f32_facts` did not return (Kissat 3000 s, cvc5 3000 s).  The same fact, split into pieces each
+// solver call can digest; the composition is three lines (DESIGN.md 8.2, A4'):
+//   as_secs_f32(s,n) == fl(s as f32 + frac(n))                                  [dur_def_unfold]
+//   n1 <= n2  =>  0 <= frac(n1) <= frac(n2) <= 1                                 [dur_frac_monotone]
+//   x <= y in [0,1], s < 2^23  =>  fl(s+x) <= fl(s+y), fl(s+0)==s, fl(s+1)==s+1  [dur_add_monotone]
+//   hence for (s1,n1) <= (s2,n2): same s: by the 2nd and 3rd; s1 < s2: fl(s1+x) <= s1+1 <= s2 <= fl(s2+y).
+
+fn frac(n: u32) -> f32 {
+    (n as f32) / (1_000_000_000u32 as f32)
+}
+
+/// NOT registered: no result in 600 s (CaDiCaL), 420 s (cvc5), 300 s (z3); sampled natively instead
+/// (contracts/native/verif_native_dur.rs).
+#[kani::proof]
+fn dur_def_unfold() {
+    let (s, n): (u64, u32) = (kani::any(), kani::any());
+    kani::assume(n < 1_000_000_000 && s < (1u64 << 23));
+    assert!(Duration::new(s, n).as_secs_f32() == (s as f32) + frac(n));
+}
+
+/// NOT registered: no result in 600 s (CaDiCaL), 420 s (cvc5), 300 s (z3); checked natively by
+/// exhaustive enumeration of all 10^9 nanosecond counts instead (contracts/native/verif_native_dur.rs).
+#[kani::proof]
+fn dur_frac_monotone() {
+    let (n1, n2): (u32, u32) = (kani::any(), kani::any());
+    kani::assume(n1 <= n2 && n2 < 1_000_000_000);
+    let (a, b) = (frac(n1), frac(n2));
+    assert!(0.0 <= a && a <= b && b <= 1.0);
+}
+
+#[kani::proof]
+fn dur_add_monotone() {
+    let s: u32 = kani::any();
+    kani::assume(s < (1u32 << 23));
+    let (x, y): (f32, f32) = (kani::any(), kani::any());
+    kani::assume(0.0 <= x && x <= y && y <= 1.0);
+    let sf = s as f32;
+    assert!(sf + x <= sf + y);
+    assert!(sf + 0.0 == sf && sf + 1.0 == (s + 1) as f32);
+    assert!(sf + x >= 0.0 && (sf + y).is_finite());
+    // integer seconds are exact and ordered
+    let t: u32 = kani::any();
+    kani::assume(t < (1u32 << 23) && s < t);
+    assert!((s + 1) as f32 <= t as f32);
+}
+
 #[kani::proof]
 fn std_from_secs_f32_zero() {
     assert!(Duration::from_secs_f32(0.0) == Duration::ZERO);
